@@ -518,6 +518,8 @@ def _resolve_data_source(
             )
             if found:
                 actual_source = found
+    # A producer inside a collapsed nested container is drawn as that container
+    actual_source = _nearest_visible_ancestor(actual_source, flat_graph, expansion_state)
     if not is_node_visible(actual_source, flat_graph, expansion_state):
         return None
     return actual_source
